@@ -22,6 +22,7 @@ var gens = map[string]func(props.Ctx) *report.Report{
 	"C12": props.C12,
 	"C15": props.C15,
 	"C18": props.C18,
+	"C09": props.C09,
 	"C10": props.C10,
 	"C11": props.C11,
 	"C14": props.C14,
